@@ -43,7 +43,9 @@ def fmt_tol(fmt, digits=None):
         return 1e-6
     if base in ("dae",):
         return 1e-6
-    if base in ("obj", "obj_mtl", "off", "stl_ascii", "ply_ascii", "xyz"):
+    if base == "stl_ascii":
+        return 1e-13  # the ASCII STL writer prints every double in full
+    if base in ("obj", "obj_mtl", "off", "ply_ascii", "xyz"):
         return 1e-7
     if base in ("dxf", "svg"):
         return 1e-5
